@@ -1276,7 +1276,8 @@ class System:
         starting_bus = 0
         visit_idx = 0
 
-        while True:
+        # nothing to sweep when every bus is islanded
+        while len(self.Bus.islanded_buses) < n:
             if starting_bus in self.Bus.islanded_buses:
                 starting_bus += 1
                 continue
@@ -1330,7 +1331,7 @@ class System:
         if len(self.Bus.islanded_buses) > 0:
             self.Bus.islands.extend([[item] for item in self.Bus.islanded_buses])
 
-        if len(self.Bus.island_sets) == 0:
+        if len(self.Bus.island_sets) == 0 and len(self.Bus.islanded_buses) == 0:
             self.Bus.islands.append(list(range(n)))
         else:
             self.Bus.islands.extend(self.Bus.island_sets)
